@@ -110,7 +110,23 @@ func runBounded(repo, verif, prop, tier string) ([]BoundedResult, []string) {
 		} else if err != nil {
 			// some test failed or crashed: a crash (panic in the code under test) is a violation in its own right
 			txt := out.String()
-			if strings.Contains(txt, "panic:") {
+			if i := strings.Index(txt, "fatal error:"); i >= 0 && !strings.Contains(txt, "panic:") {
+				// the runtime killed the test binary (stack overflow, out of memory, deadlock): the code under test
+				// did not return; the tests that had not reported yet are the ones affected
+				what := firstLine(txt[i:])
+				running := ""
+				for _, m := range regexp.MustCompile(`=== RUN   (\S+)`).FindAllStringSubmatch(txt, -1) {
+					running = m[1]
+				}
+				if i > 300 {
+					txt = txt[i-300:]
+				}
+				if len(txt) > 2000 {
+					txt = txt[:2000]
+				}
+				results = append(results, BoundedResult{Check: "bounded run in " + d, Property: prop, Pkg: boundedDirs[d], Crashed: txt,
+					Violations: []string{"the code under test did not return during " + running + ": " + what}})
+			} else if strings.Contains(txt, "panic:") {
 				what := firstLine(txt[strings.Index(txt, "panic:"):])
 				if i := strings.Index(txt, "panic:"); i > 300 {
 					txt = txt[i-300:]
